@@ -162,10 +162,12 @@ theorem subshell_fields :
   decide +kernel
 
 /-- **spawn_sites.**  The goroutine start sites of package interp (regenerated) are the six reviewed
-    ones, with the variables each goroutine body captures and its uses of the spawning Runner:
-    none, except the error paths of the process substitution (`r.errf`; known finding
-    C32-procsubst-errf). -/
-theorem spawn_sites : ShVerif.Gen.C32.spawns = ShVerif.Expect.C32.expectedSpawns := by
+    ones with the variables each goroutine body captures, and no goroutine body uses the Runner
+    that spawned it (the process substitution did, through `r.errf`, until commit f9b9e42: finding
+    C32-procsubst-errf, fixed). -/
+theorem spawn_sites :
+    ShVerif.Gen.C32.spawns = ShVerif.Expect.C32.expectedSpawns ∧
+    (ShVerif.Gen.C32.spawns.all fun s => s.parentUses.isEmpty) = true := by
   decide +kernel
 
 /-! ## Storage shared after `subshell(true)` -/
